@@ -75,6 +75,8 @@ const POOL: &[(&str, &str, &str)] = &[
     // (tag, name, value)
     ("e2e", "X-A", "1"), ("e2e", "Accept", "*/*"), ("e2e", "X-A", "2"), ("e2e", "X-B", "keep me"),
     ("cookie", "Cookie", "a=b; SOZUBALANCEID=zz; c=d"),
+    // application cookies whose names are case variants of the sticky name: not sozu's, must reach the backend
+    ("cookie", "Cookie", "SozuBalanceId=app-owned; sozubalanceid=too; theme=dark"),
     ("xff", "X-Forwarded-For", "1.2.3.4"),
     ("xff", "x-forwarded-for", "5.6.7.8, 9.10.11.12"),
     ("fwd", "Forwarded", "for=9.9.9.9"),
@@ -100,7 +102,10 @@ fn check(mask: u32, elide: bool, send: bool, peer: SocketAddr, public: SocketAdd
     let got: Vec<(String, &str)> = h.iter().filter(|(k, _)| ["x-a", "accept", "x-b"].contains(&k.as_str())).map(|(k, v)| (k.clone(), v.as_str())).collect();
     if want != got { return fail(format!("end-to-end headers changed: sent {want:?}, forwarded {got:?}")); }
     // B. cookies other than sozu's sticky cookie
-    if chosen.iter().any(|c| c.0 == "cookie") && vals(&h, "cookie") != vec!["a=b; c=d"] { return fail(format!("cookies other than the sticky cookie must be forwarded unchanged: {:?}", vals(&h, "cookie"))); }
+    let want_crumbs: Vec<String> = chosen.iter().filter(|c| c.0 == "cookie").flat_map(|c| c.2.split(';').map(|x| x.trim().to_string()).collect::<Vec<_>>())
+        .filter(|crumb| crumb.split('=').next() != Some("SOZUBALANCEID")).collect();
+    let got_crumbs: Vec<String> = vals(&h, "cookie").iter().flat_map(|v| v.split(';').map(|x| x.trim().to_string()).collect::<Vec<_>>()).filter(|x| !x.is_empty()).collect();
+    if got_crumbs != want_crumbs { return fail(format!("cookies other than the sticky cookie (exact name SOZUBALANCEID) must be forwarded unchanged, in order: sent {want_crumbs:?}, forwarded {got_crumbs:?}")); }
     // C. X-Forwarded-For: the client's elements in their order (over all its X-Forwarded-For fields), then the real peer LAST
     let xff = vals(&h, "x-forwarded-for").join(", ");
     let mut want_xff: Vec<String> = chosen.iter().filter(|c| c.0 == "xff").map(|c| c.2.to_string()).collect();
